@@ -20,6 +20,7 @@ limitations under the License.
 #include <iomanip>
 #include <limits>
 #include <list>
+#include <locale>
 #include <map>
 #include <sstream>
 #include <stack>
@@ -126,6 +127,7 @@ static std::string convertToRoundTripString(double value)
     while (std::isfinite(value) && (precision < std::numeric_limits<double>::max_digits10)
            && !(convertToDouble(result, readBack) && (readBack == value))) {
         std::ostringstream strs;
+        strs.imbue(std::locale::classic()); // like convertToString(): never follow the global locale
         strs << std::setprecision(++precision) << value;
         result = strs.str();
     }
